@@ -235,7 +235,7 @@ def finish(a, ev, t0, violations, undecided, known=None, record=False):
     if st_names:
         from vx import refute
         ev['coverage']['stand_ins'] = []
-        for nme, desc, evals, fail, note in refute.run_standins(st_names):
+        for nme, desc, evals, fail, note in refute.run_standins(st_names, thorough=(a.tier == 'thorough')):
             ev['coverage']['stand_ins'].append(dict(name=nme, covers=desc, evaluations=evals, status=('DISAGREES' if fail else 'agrees') if evals else 'not run',
                                                     note=note, label='tested (structured differential test of the compiled crate against an independent Python reference; '
                                                     'not a proof, not counted in obligations / discharged)'))
